@@ -167,6 +167,14 @@ def gen_expr(rng, ids, depth=3, size=32):
     if k < 0.70:
         # adjacent slices of ONE source (merge rule of the simplifier), plus another piece
         src = rng.choice(ids)
+        if rng.random() < 0.2:
+            # TWO runs of adjacent slices of the source, kept apart by a foreign nibble (each run is merged on its own)
+            other = rng.choice([x for x in ids if x != src] or ids)
+            slots = [[['S', src, 0, 8], 0, 8], [['S', src, 8, 12], 8, 12], [['S', other, 12, 16], 12, 16],
+                     [['S', src, 16, 24], 16, 24], [['S', src, 24, 32], 24, 32]]
+            if rng.random() < 0.3:
+                rng.shuffle(slots)
+            return ['C', slots]
         cuts = sorted(rng.sample([8, 16, 24], rng.choice([1, 2])))
         bounds = [0] + cuts + [32]
         slots = []
